@@ -258,7 +258,7 @@ fn hexs(b: &[u8]) -> String {
 fn main() {
     let args = parse_args();
     let mut rng = Rng::new(args.seed);
-    let mut sink = Sink::new(&args, "KV.C29.Model", if args.thorough { 400 } else { 90 });
+    let mut sink = Sink::new(&args, "KV.C29.Model", if args.thorough { 200 } else { 20 });
     sink.import("Coq.Strings.String");
     sink.import("KV.C29.Hash");
     sink.rule = "tokens: random secrets of 0..200 bytes (weighted towards 0, typical 10/20/32/64 and the HMAC block \
@@ -268,8 +268,9 @@ fn main() {
                  nanoseconds; plus a few calls outside the property's hypotheses (time < step, step 0) that only tie the \
                  model's panic/overflow branches. candidates per (token,time): the RFC 6238 codes (independent Rust \
                  reference, long keys hashed) of counters c, c-1, c+1, c-2, each also +-1 and +10^digits, plus random \
-                 in-range and out-of-range u32 and 0. non-trivial = the candidate is the RFC code of one of the counters \
-                 c-2..c+1 (a code on or next to the acceptance boundary)"
+                 in-range and out-of-range u32 and 0. one case = one (token, time) with the list of all its candidates and what the \
+                 real verify answered for each. non-trivial = a case inside the property's hypotheses (time >= step > 0) \
+                 whose candidates include at least two RFC codes of the counters c-2..c+1 (on / next to the acceptance boundary)"
         .into();
     std::panic::set_hook(Box::new(|_| {}));
     let consts = sha2_consts();
@@ -282,7 +283,7 @@ fn main() {
         90693936
     );
     let ovf = cfg!(debug_assertions);
-    let n_tokens = if args.thorough { 1000 } else { 100 };
+    let n_tokens = if args.thorough { 4000 } else { 200 };
     for ti in 0..n_tokens {
         let a = *rng.pick(&[A::S1, A::S256, A::S512]);
         let eight = rng.chance(1, 2);
@@ -324,12 +325,10 @@ fn main() {
         if ti % 8 == 0 {
             let secs = rng.below(step);
             let c0 = ref_hotp(&consts, a, &key, 0, modulo);
-            for chal in [c0, c0 ^ 1] {
-                emit(&mut sink, &consts, ovf, a, eight, &key, step, secs, 0, chal, "pre");
-            }
+            emit(&mut sink, &consts, ovf, a, eight, &key, step, secs, 0, &[c0, c0 ^ 1], "pre");
         }
         if ti % 25 == 0 {
-            emit(&mut sink, &consts, ovf, a, eight, &key, 0, rng.below(1 << 40), 0, rng.below(1_000_000) as u32, "step0");
+            emit(&mut sink, &consts, ovf, a, eight, &key, 0, rng.below(1 << 40), 0, &[rng.below(1_000_000) as u32], "step0");
         }
     }
     sink.finish();
@@ -360,15 +359,15 @@ fn emit_time(sink: &mut Sink, rng: &mut Rng, consts: &Sha2Consts, ovf: bool, a: 
     if rng.chance(1, 4) {
         cands.push(0);
     }
+    cands.sort_unstable();
     cands.dedup();
-    for chal in cands {
-        emit(sink, consts, ovf, a, eight, key, step, secs, nanos, chal, "verify");
-    }
+    rng.shuffle(&mut cands);
+    emit(sink, consts, ovf, a, eight, key, step, secs, nanos, &cands, "verify");
 }
 
 #[allow(clippy::too_many_arguments)]
 fn emit(sink: &mut Sink, consts: &Sha2Consts, ovf: bool, a: A, eight: bool, key: &[u8], step: u64, secs: u64,
-        nanos: u32, chal: u32, tag: &str) {
+        nanos: u32, cands: &[u32], tag: &str) {
     let algo = match a {
         A::S1 => TotpAlgo::Sha1,
         A::S256 => TotpAlgo::Sha256,
@@ -376,31 +375,39 @@ fn emit(sink: &mut Sink, consts: &Sha2Consts, ovf: bool, a: A, eight: bool, key:
     };
     let digits = if eight { TotpDigits::Eight } else { TotpDigits::Six };
     let modulo: u32 = if eight { 100_000_000 } else { 1_000_000 };
-    // ---- the real code
-    let totp = Totp::new(key.to_vec(), step, algo, digits);
-    let r = guarded(std::panic::AssertUnwindSafe(|| totp.verify(chal, Duration::new(secs, nanos))));
-    let (out, outs) = match r {
-        Ok(b) => (capp("OBool", &[cbool(b)]), if b { "accept" } else { "reject" }),
-        Err(_) => ("OPanic".to_string(), "panic"),
-    };
-    // ---- bookkeeping
     let long = key.len() > block(a);
-    let mut rel = "other";
-    let mut nontrivial = false;
+    // reference codes of the neighbouring counters (bookkeeping only)
+    let mut neigh: Vec<(u32, &str)> = vec![];
     if step > 0 {
         let c = secs / step;
         for (ctr, name) in [(Some(c), "cur"), (c.checked_sub(1), "prev"), (c.checked_add(1), "next"), (c.checked_sub(2), "prev2")] {
             if let Some(ctr) = ctr {
-                if ref_hotp(consts, a, key, ctr, modulo) == chal {
-                    rel = name;
-                    nontrivial = true;
-                    break;
-                }
+                neigh.push((ref_hotp(consts, a, key, ctr, modulo), name));
             }
         }
     }
-    sink.bump(&format!("{}_{}", tag, outs));
-    sink.bump(&format!("cand_{}", rel));
+    // ---- the real code, one call per candidate
+    let totp = Totp::new(key.to_vec(), step, algo, digits);
+    let mut obs: Vec<String> = vec![];
+    let mut tobs: Vec<String> = vec![];
+    let mut boundary = 0;
+    for chal in cands {
+        let chal = *chal;
+        let r = guarded(std::panic::AssertUnwindSafe(|| totp.verify(chal, Duration::new(secs, nanos))));
+        let (out, outs) = match r {
+            Ok(b) => (capp("OBool", &[cbool(b)]), if b { "accept" } else { "reject" }),
+            Err(_) => ("OPanic".to_string(), "panic"),
+        };
+        let rel = neigh.iter().find(|(code, _)| *code == chal).map(|(_, n)| *n).unwrap_or("other");
+        if rel != "other" {
+            boundary += 1;
+        }
+        sink.bump(&format!("call_{}_{}", tag, outs));
+        sink.bump(&format!("cand_{}", rel));
+        sink.bump("verify_calls");
+        obs.push(format!("({}, {})", cn(chal as u64), out));
+        tobs.push(format!("{}({})->{}", chal, rel, outs));
+    }
     sink.bump(if long { "secret_longer_than_block" } else { "secret_fits_block" });
     sink.bump(match a { A::S1 => "sha1", A::S256 => "sha256", A::S512 => "sha512" });
     let an = match a { A::S1 => "Sha1", A::S256 => "Sha256", A::S512 => "Sha512" };
@@ -412,15 +419,16 @@ fn emit(sink: &mut Sink, consts: &Sha2Consts, ovf: bool, a: A, eight: bool, key:
             (if eight { "D8" } else { "D6" }).to_string(),
             format!("(hex \"{}\"%string)", hexs(key)),
             cn(step),
-            cn(chal as u64),
             cn(secs),
             cn(nanos as u64),
-            out,
+            clist_s(&obs),
         ],
     );
     let txt = format!(
-        "{} algo={} digits={} secret[{}]={} step={} time={}.{:09} code={} ({}) -> {}",
-        tag, an, if eight { 8 } else { 6 }, key.len(), hexs(key), step, secs, nanos, chal, rel, outs
+        "{} algo={} digits={} secret[{}]={} step={} time={}.{:09} codes: {}",
+        tag, an, if eight { 8 } else { 6 }, key.len(), hexs(key), step, secs, nanos, tobs.join(" ")
     );
-    sink.case(coq, txt, nontrivial && tag == "verify");
+    // non-trivial: a call inside the property's hypotheses whose candidates include codes on/next to the
+    // acceptance boundary (current, previous, next, two back)
+    sink.case(coq, txt, tag == "verify" && boundary >= 2);
 }
